@@ -316,6 +316,8 @@ pub fn parse_multi_branch_conditional(
                     if line.had_newline {
                         current_nodes.push(Node::Newline);
                     }
+                } else if line.had_newline {
+                    current_nodes.push(Node::Newline);
                 }
                 *line_index += 1;
                 continue;
@@ -402,6 +404,11 @@ pub fn parse_multi_branch_conditional(
                     *line_index += 1;
                 }
             } else {
+                // `- cond:` with its content on the following lines: the branch starts on a new
+                // line (inklecate opens such a branch with "\n", as the single-condition form does)
+                if line.had_newline {
+                    current_nodes.push(Node::Newline);
+                }
                 *line_index += 1;
             }
             continue;
